@@ -4,8 +4,18 @@
     members, children and source order (Corr/Check_C12.v:chk_model). Without it a defect of the analysis
     would make the observed graph the reference of the dependent property and go unnoticed there. *)
 From Coq Require Import List String ZArith Bool.
-From GM Require Import Base.Result Facts.GoFacts Facts.Ana Model.Enums Model.Unions Model.Classify Corr.Check_C12.
+From GM Require Import Base.Result Facts.GoFacts Facts.Ana Model.Enums Model.Unions Model.Classify Corr.Check_C10 Corr.Check_C12.
 Import ListNotations.
 
 Definition ana_cross (pr : prog) (a : ana_obs) : bool :=
   Check_C12.chk_model {| c12_prog := pr; c12_source := ao_source a; c12_ana := a |}.
+
+(** ... and the enum table handed to the dependent models must be the one the enum detection model (C10) computes
+    from the facts: same enums, same members (exported or not) with their values and comments, same iota flags *)
+Definition enums_cross (pr : prog) (obs : list enum) : bool :=
+  match fetch_enums pr with
+  | Ok l => Check_C10.enums_equiv l obs
+  | _ => true
+  end.
+
+Definition ana_cross_e (pr : prog) (obs : list enum) (a : ana_obs) : bool := ana_cross pr a && enums_cross pr obs.
